@@ -6,9 +6,9 @@ cd $WT || exit 2
 git checkout -q -- . ; git apply $OUT/patch.diff || { echo "APPLY-FAILED"; exit 2; }
 export CARGO_TARGET_DIR=$WT/target
 cargo build --offline -q 2>/dev/null || { echo "BUILD-FAILED"; git checkout -q -- .; exit 2; }
-( cd $OUT && bash ./demo.sh >/dev/null 2>&1 ); with=$?
+( cd $OUT && bash ./demo.sh $WT/target/debug/noulith >/dev/null 2>&1 ); with=$?
 tests=$(cargo test --offline --test test -- --skip demos 2>&1 | grep "^test result" | head -1)
 git checkout -q -- .
 cargo build --offline -q 2>/dev/null
-( cd $OUT && bash ./demo.sh >/dev/null 2>&1 ); without=$?
+( cd $OUT && bash ./demo.sh $WT/target/debug/noulith >/dev/null 2>&1 ); without=$?
 echo "demo_with_patch_exit=$with demo_without_patch_exit=$without tests_with_patch: $tests"
